@@ -260,7 +260,7 @@ theorem connAbort_effect {t : State} (hS : Str [] t) (hsp : t.sp = none) :
       have := e1 ha
       rw [hsh.noneKept i this]; exact this
     · intro ha hncr
-      rcases e2 ha hncr with h1 | h1
+      rcases e2 ha hncr (by unfold tmpCreated; rw [hsp]) with h1 | h1
       · exact Or.inl (hsh.ghostKept i h1)
       · right; rw [hsh.noneKept i h1]; exact h1
 
@@ -377,5 +377,158 @@ theorem connTpcAbort_effect {u : State} (hS : Str [] u) (hsp : u.sp = none) (hb 
     have := invalidateAll_ghost c0.1 ((storageAbort u).modified.filter fun k => !(storageAbort u).creating.has k) k
       (List.mem_filter.2 ⟨hk, by show (!u.creating.has k) = true; rw [hncr]; rfl⟩) i (hsh.cache k i hi)
     exact hsh.ghostKept i this
+
+/-! ### a new object that was stored keeps its state through the cleanup (no savepoint storage) -/
+
+/-- object `j` is not a ghost -/
+def NG (j : Nat) (s : State) : Prop := (s.objs j).status ≠ .ghost
+
+theorem disown_ng (s : State) (i j : Nat) (h : NG j s) : NG j (disown s i) := by
+  unfold NG at h ⊢
+  simp only [disown, setO]
+  by_cases hji : j = i
+  · subst hji
+    simp only [if_true]
+    split
+    · simp
+    · exact h
+  · rw [if_neg hji]; exact h
+
+theorem uncreate_ng (s : State) (k j : Nat) (h : NG j s) : NG j (uncreate s k) := by
+  unfold uncreate
+  split
+  · exact disown_ng _ _ j h
+  · exact h
+
+theorem invalidateCreating_ng (s : State) (ks : List Nat) (j : Nat) (h : NG j s) :
+    NG j (invalidateCreating s ks) :=
+  foldl_pres (NG j) uncreate (fun t k ht => uncreate_ng t k j ht) ks s h
+
+theorem drainAdded_ng (s : State) (j : Nat) (h : NG j s) : NG j (drainAdded s) := by
+  unfold drainAdded
+  dsimp only
+  show NG j (List.foldl _ s s.added)
+  exact foldl_pres (NG j) (fun (s : State) (p : Oid × ObjId) => disown { s with added := s.added.del p.1 } p.2)
+    (fun t p ht => disown_ng _ _ j ht) s.added s h
+
+theorem invalidate_ng {s : State} (k' j : Nat) (hc : s.cache.get k' ≠ some j) (h : NG j s) :
+    NG j (invalidate s k') := by
+  unfold invalidate
+  split
+  · rename_i i hi
+    unfold NG at h ⊢
+    simp only [setO]
+    by_cases hji : j = i
+    · subst hji; exact absurd hi hc
+    · rw [if_neg hji]; exact h
+  · exact h
+
+/-- where object `j` is while the cleanup runs: still under its oid `k`, or disowned already -/
+def At (j k : Nat) (s : State) : Prop := (s.objs j).oid = some k ∨ (s.objs j).oid = none
+
+theorem At.not_cached {P} {s : State} (hS : Str P s) {j k k' : Nat} (h : At j k s) (hne : k' ≠ k) :
+    s.cache.get k' ≠ some j := by
+  intro hc
+  have := hS.cacheS k' j hc
+  rcases h with h | h
+  · rw [h] at this; cases this; exact hne rfl
+  · rw [h] at this; cases this
+
+theorem At.of_shrink {s s' : State} {j k : Nat} (h : At j k s) (sh : Shrink s s') : At j k s' := by
+  rcases sh.oid j with h1 | h1
+  · rcases h with h | h
+    · exact Or.inl (by rw [h1]; exact h)
+    · exact Or.inr (by rw [h1]; exact h)
+  · exact Or.inr h1.1
+
+theorem invalidateAll_ng {P} : ∀ (ks : List Nat) (s : State), Str P s → ∀ {j k : Nat}, At j k s → k ∉ ks →
+    NG j s → NG j (invalidateAll s ks) := by
+  intro ks
+  induction ks with
+  | nil => intro s _ j k _ _ h; exact h
+  | cons k' rest ih =>
+    intro s hS j k hat hk h
+    simp only [invalidateAll, List.foldl_cons]
+    have hne : k' ≠ k := fun he => hk (by rw [he]; exact List.mem_cons_self)
+    have h1 := invalidate_ng k' j (hat.not_cached hS hne) h
+    have hat1 : At j k (invalidate s k') := by
+      unfold At; rw [invalidate_oid]; exact hat
+    exact ih (invalidate s k') (invalidate_str hS k') hat1 (fun hm => hk (List.mem_cons_of_mem _ hm)) h1
+
+theorem invalidateAll_ng_none {P} : ∀ (ks : List Nat) (s : State), Str P s → ∀ {j : Nat},
+    (s.objs j).oid = none → NG j s → NG j (invalidateAll s ks) := by
+  intro ks
+  induction ks with
+  | nil => intro s _ j _ h; exact h
+  | cons k' rest ih =>
+    intro s hS j hn h
+    simp only [invalidateAll, List.foldl_cons]
+    have hnc : s.cache.get k' ≠ some j := by
+      intro hc; have := hS.cacheS k' j hc; rw [hn] at this; cases this
+    exact ih (invalidate s k') (invalidate_str hS k') (by rw [invalidate_oid]; exact hn)
+      (invalidate_ng k' j hnc h)
+
+theorem abortOne_ng {s : State} (hS : Str [] s) (i : Nat) {j k : Nat} (hat : At j k s)
+    (hcr : s.creating.has k = true) (h : NG j s) : NG j (abortOne s i) := by
+  unfold abortOne
+  split
+  · exact h
+  · rename_i ki hki
+    split
+    · exact disown_ng _ _ j h
+    · split
+      · exact h
+      · rename_i hnc
+        apply invalidate_ng ki j _ h
+        apply hat.not_cached hS
+        intro he
+        rw [he, hcr] at hnc
+        simp at hnc
+
+theorem abortObjs_ng {s : State} (hS : Str [] s) {j k : Nat} (hat : At j k s)
+    (hcr : s.creating.has k = true) (h : NG j s) : NG j (abortObjs s) ∧ At j k (abortObjs s) := by
+  unfold abortObjs
+  have := foldl_pres (fun u => Str [] u ∧ At j k u ∧ u.creating.has k = true ∧ NG j u) abortOne
+    (fun u i ⟨h1, h2, h3, h4⟩ =>
+      ⟨abortOne_str h1 i, h2.of_shrink (abortOne_clean h1 i).2, by rw [abortOne_creating]; exact h3,
+        abortOne_ng h1 i h2 h3 h4⟩) s.registered s ⟨hS, hat, hcr, h⟩
+  exact ⟨this.2.2.2, this.2.1⟩
+
+/-- **`Connection.abort` keeps the state of a stored new object** (it is disowned, not invalidated) -/
+theorem connAbort_ng {t : State} (hS : Str [] t) (hsp : t.sp = none) {j k : Nat}
+    (hc : t.cache.get k = some j) (hcr : t.creating.has k = true) (h : NG j t) : NG j (connAbort t) := by
+  have hat : At j k t := Or.inl (hS.cacheS k j hc)
+  obtain ⟨h1, _⟩ := abortObjs_ng hS hat hcr h
+  have hAsp : (abortObjs t).sp = none := by
+    have := abortObjs_fixed t; simp only [fixed, Prod.mk.injEq] at this; rw [this.1]; exact hsp
+  unfold connAbort
+  rw [abortSavepoint_none hAsp]
+  show NG j (invalidateCreating (abortObjs t) (abortObjs t).creating.keys)
+  exact invalidateCreating_ng _ _ j h1
+
+/-- **`Connection.tpc_abort` keeps the state** of an object that is cached under a `_creating` oid, and of
+    one that is disowned already -/
+theorem connTpcAbort_ng {u : State} (hS : Str [] u) (hsp : u.sp = none) {j k : Nat} (hat : At j k u)
+    (hcr : u.creating.has k = true ∨ (u.objs j).oid = none) (h : NG j u) : NG j (connTpcAbort u) := by
+  by_cases hb : u.begun = true
+  · have hZ : connTpcAbort u = tpcCleanup (drainAdded (invalidateOwnCreating
+        (invalidateModified (storageAbort u)))) := by
+      unfold connTpcAbort; rw [abortSavepoint_none hsp]; simp [hb]
+    rw [hZ]
+    show NG j (drainAdded (invalidateOwnCreating (invalidateModified (storageAbort u))))
+    apply drainAdded_ng
+    show NG j (invalidateCreating (invalidateModified (storageAbort u)) _)
+    apply invalidateCreating_ng
+    have hS0 : Str [] (storageAbort u) := (storageAbort_clean hS).1
+    rcases hcr with hcr | hcr
+    · exact invalidateAll_ng _ (storageAbort u) hS0 (k := k) hat (by
+        intro hm
+        have := (List.mem_filter.1 hm).2
+        have h2 : (!u.creating.has k) = true := this
+        rw [hcr] at h2; cases h2) h
+    · -- disowned already: under no oid at all
+      exact invalidateAll_ng_none _ (storageAbort u) hS0 hcr h
+  · have : connTpcAbort u = u := by unfold connTpcAbort; simp [hb]
+    rw [this]; exact h
 
 end Proofs.Conn
